@@ -11,7 +11,7 @@ PROP = dict(
                  "error class is not compared, only ok/err/panic and the returned values"],
 )
 MANIFEST = dict(
-    level="Machine-checked proof (Coq 8.16, no axioms) over a Gallina model of the four framing helpers and the LEB128 codec: inverse law for every list of items < 2^32 bytes, image characterisation (an accepted stream is exactly header_i++item_i), truncation, over-long / overflowing varints, exact cover for single-item streams, totality. The model is tied to the code on every run by differential execution (real helpers via build-tag hooks vs the extracted model) on boundary-directed inputs; monitors derived from the iff-theorems turn any divergence of the accepting set into a concrete failing input.",
+    level="Machine-checked proof (Coq 8.16, no axioms) over a Gallina model of the four framing helpers and the LEB128 codec: inverse law for every list of items < 2^32 bytes, image characterisation (an accepted stream is exactly header_i++item_i), truncation, over-long / overflowing varints, exact cover for single-item streams, totality, unique decodability (one split per stream, one canonical stream per list), size accounting of an accepted stream (1..5 prefix bytes per item), and for a single-item stream between two sides: the sent bytes arrive iff both frame under the same version. The uint32 wrap of a 2^32-byte item and the acceptance of non-minimal length prefixes are proved as stated observations (C15_long_item_*, C15_noncanonical_prefix_accepted). The model is tied to the code on every run by differential execution (real helpers via build-tag hooks vs the extracted model) on boundary-directed inputs; monitors derived from the iff-theorems turn any divergence of the accepting set into a concrete failing input.",
     note="Trusted: Coq kernel, extraction + OCaml driver, Go harness; model/code agreement outside the generated inputs is tested, not proved. leb128 library re-implemented in the model. Items >= 2^32 bytes excluded by hypothesis (uint32 wrap).",
     technique="Coq proof (induction, inverse law + image characterisation) + model/implementation correspondence run",
 )
